@@ -85,7 +85,8 @@ func streamWL(x *mon.Ctx) {
 	selftest(x)
 	bf := newBufs(4096)
 	defer bf.free()
-	reps := x.Scale(1, 32)
+	reps := x.Scale(1, 22)
+	mis := 0
 	if raceBuild(x) {
 		reps = x.Scale(1, 3)
 	}
@@ -107,14 +108,18 @@ func streamWL(x *mon.Ctx) {
 			}
 			for li, L := range lens {
 				for rep := 0; rep < reps; rep++ {
-					for pl := 0; pl < 2; pl++ {
-						hi := pl == 0
+					for pl := 0; pl < 3; pl++ {
+						p := placement{kind: pl}
+						if pl == plMis {
+							p = misPlacement(mis + li + rep)
+							mis++
+						}
 						ld := fmt.Sprint(L * unit)
 						if L < 0 {
 							ld = "random"
 						}
 						c := x.Begin("stream mode=%s dir=%s kind=%s len=%s#%d place=%s rep=%d (iv kind, key, iv, data, cut points from the case PRNG)",
-							s.mode, s.dir, kind, ld, li, side(hi), rep)
+							s.mode, s.dir, kind, ld, li, p, rep)
 						if c == nil {
 							continue
 						}
@@ -122,7 +127,7 @@ func streamWL(x *mon.Ctx) {
 						if L < 0 {
 							n = unit * c.R.Range(1, 2100/unit)
 						}
-						streamCase(c, bf, s, unit, n, kind, hi)
+						streamCase(c, bf, s, unit, n, kind, p)
 						c.End()
 					}
 				}
@@ -131,16 +136,16 @@ func streamWL(x *mon.Ctx) {
 	}
 }
 
-func streamCase(c *mon.Case, bf *bufs, s spec, unit, n int, kind string, hi bool) {
+func streamCase(c *mon.Case, bf *bufs, s spec, unit, n int, kind string, pl placement) {
 	kinds := ivKinds(s)
 	ivk := kinds[c.R.Intn(len(kinds))]
 	m := genMaterial(c.R, s, ivk)
 	data := c.R.Bytes(n)
 	chunks := partition(c.R, n, unit, kind)
 	want := reference(s, m, data)
-	c.Class("stream/%s/%s/%s/%s/t%d/%s/%s", s.mode, s.dir, kind, lenClass(n), n%16, ivk, side(hi))
+	c.Class("stream/%s/%s/%s/%s/t%d/%s/%s", s.mode, s.dir, kind, lenClass(n), n%16, ivk, pl.short())
 	c.Event("bytes", n)
-	p := bf.place(m, hi)
+	p := bf.place(m, pl)
 	c.Detail("chunk_sizes_of_the_history", fmt.Sprint(clipChunks(chunks)))
 	for _, path := range s.paths() {
 		f := construct(c, bf, s, path, p, m)
@@ -150,14 +155,20 @@ func streamCase(c *mon.Case, bf *bufs, s spec, unit, n int, kind string, hi bool
 		c.Event("histories", 1)
 		off := 0
 		for ci, k := range chunks {
-			what := fmt.Sprintf("%s (%s) call %d of %d: bytes %d..%d", s, path, ci+1, len(chunks), off, off+k)
-			src := bf.src.Put(data[off:off+k], hi)
+			cp := pl
+			if pl.kind == plMis {
+				// every call of the history gets another offset pair
+				cp = misPlacement(ci + pl.so + 5*pl.do)
+				c.Event("misaligned_calls", 1)
+			}
+			what := fmt.Sprintf("%s (%s, guard %s) call %d of %d: bytes %d..%d", s, path, cp, ci+1, len(chunks), off, off+k)
+			src := cp.putSrc(bf.src, data[off:off+k])
 			dst := src
 			inPlace := (ci+len(chunks))%2 == 1
 			if inPlace {
-				bf.dst.Side(0, hi)
+				bf.dst.Lo(0)
 			} else {
-				dst = bf.dst.Side(k, hi)
+				dst = cp.getDst(bf.dst, k)
 			}
 			ok := c.Call(what, func() { f(dst, src) })
 			ok = c.CheckGuards(what, bf.dst, bf.src) && ok
